@@ -18,6 +18,7 @@ RULE = ('cases: recipes (plain-data construction programs) for values: None/Elli
 ASSUMPTIONS = ['the reference canonical form canon() in this module decides which values "can behave differently"', 'type objects other than builtin scalar types are outside the documented domain of nutils_hash and are not generated',
                'python-equal arguments of different type (1/True/1.0) given to an interning constructor are recorded, not asserted (DESIGN.md C17 scope note)']
 
+INTERNED_CLS = ('SingA', 'SingB', 'DataA', 'DataB', 'SingK', 'DataE', 'DataF')
 LEAVES = ['none', 'ellipsis', 'bool', 'int', 'float', 'complex', 'str', 'bytes', 'npscalar', 'type']
 INTS = [0, 1, -1, 2, 255, 256, -128, 2 ** 31, 2 ** 63, -2 ** 63 - 1, 10 ** 30]
 FLOATS = ['0.0', '-0.0', '1.0', '-1.0', '0.5', 'nan', 'inf', '-inf', '5e-324', '1e308', '2.0', '1.5']
@@ -65,7 +66,7 @@ def recipes(depth):
         st.lists(st.tuples(leaf(), sub), max_size=3).map(lambda kv: dict(k='frozendict', items=[list(x) for x in kv])),
         hashable_items.map(lambda x: dict(k='multiset', items=x)),
         ndarray_recipe(), ndarray_recipe('arraydata'),
-        st.tuples(st.sampled_from(['ImmA', 'ImmB', 'ImmV', 'SingA', 'SingB', 'DataA', 'DataB']), st.lists(sub, min_size=1, max_size=3), st.sampled_from(['pos', 'kw', 'mixed']))
+        st.tuples(st.sampled_from(['ImmA', 'ImmB', 'ImmV', 'SingA', 'SingB', 'DataA', 'DataB', 'ImmK', 'SingK', 'DataE', 'DataF']), st.lists(sub, min_size=1, max_size=3), st.sampled_from(['pos', 'kw', 'mixed']))
           .map(lambda t: dict(k='obj', cls=t[0], args=t[1], style=t[2])),
         sub.map(lambda x: dict(k='hfunc', ident=x)),
         st.sampled_from([dict(k='solver', name='Direct'), dict(k='solver', name='Newton'), dict(k='solver', name='Minimize'), dict(k='solver', name='LinesearchNewton')]),
@@ -129,6 +130,12 @@ def build(r, route=0):
         style = r['style'] if not route else {'pos': 'kw', 'kw': 'mixed', 'mixed': 'pos'}[r['style']]
         names = ['a', 'b', 'c']
         try:
+            if r['cls'] in ('DataE', 'DataF'):      # the first argument only selects the style; an empty items tuple makes the value falsy
+                return cls(tuple(args[1:])) if style == 'pos' else cls(items=tuple(args[1:]))
+            if r['cls'] in ('ImmK', 'SingK'):       # extra keywords in the order given / reversed / first one positional
+                kw = list(zip(['p', 'q'], args[1:]))
+                if style == 'kw': kw = kw[::-1]
+                return cls(args[0], **dict(kw)) if style != 'mixed' else cls(a=args[0], **dict(kw))
             if style == 'pos': return cls(*args)
             if style == 'kw': return cls(**dict(zip(names, args)))
             return cls(args[0], **dict(zip(names[1:], args[1:])))
@@ -186,7 +193,10 @@ def canon(r):
         return ('complex', repr(complex(v)))
     if k == 'type': return ('type', r['v'])
     if k in ('tuple', 'list'): return (k, tuple(canon(i) for i in r['items']))
-    if k in ('set', 'frozenset'): return (k, tuple(sorted({jdump(canon(i)) for i in r['items']})))
+    if k in ('set', 'frozenset'):
+        # python sets collapse ==-equal items; separately built NaNs (also inside tuples) are not equal to each other and all stay
+        cs = [jdump(canon(i)) for i in r['items']]
+        return (k, tuple(sorted(set(c for c in cs if 'nan' not in c)) + sorted(c for c in cs if 'nan' in c)))
     if k == 'multiset': return (k, tuple(sorted(jdump(canon(i)) for i in r['items'])))
     if k in ('dict', 'frozendict'): return (k, tuple(sorted(jdump([canon(a), canon(b)]) for a, b in r['items'])))
     if k == 'ndarray':
@@ -198,6 +208,8 @@ def canon(r):
         return ('arraydata', native.__name__, tuple(a.shape), a.astype(native).tobytes().hex())
     if k == 'obj':
         args = [canon(a) for a in r['args']]
+        if r['cls'] in ('DataE', 'DataF'): return ('obj', r['cls'], ('items', tuple(args[1:])))     # first argument is not part of the value
+        if r['cls'] in ('ImmK', 'SingK'): return ('obj', r['cls'], (args[0], tuple(zip(['p', 'q'], args[1:]))))
         defaults = [None, ('int', 2), ('str', 'x')]
         full = args + defaults[len(args):]
         return ('obj', r['cls'], tuple(full))
@@ -249,7 +261,7 @@ def numeric_leaves(r, out=None):
 
 
 def contains_interned(r):
-    if r['k'] == 'obj' and r['cls'] in ('SingA', 'SingB', 'DataA', 'DataB'): return True
+    if r['k'] == 'obj' and r['cls'] in INTERNED_CLS: return True
     if r['k'] in ('arraydata',): return False
     for key in ('items', 'args'):
         for i in r.get(key, []):
@@ -291,7 +303,7 @@ def mutate(r, m, pick):
     if m == 'multiplicity' and k in ('multiset', 'tuple', 'list') and r['items']:
         r['items'] = r['items'] + [r['items'][pick % len(r['items'])]]; return r
     if m == 'other-class' and k == 'obj':
-        r['cls'] = {'ImmA': 'ImmB', 'ImmB': 'ImmA', 'ImmV': 'ImmA', 'SingA': 'SingB', 'SingB': 'SingA', 'DataA': 'DataB', 'DataB': 'DataA'}[r['cls']]; return r
+        r['cls'] = {'ImmA': 'ImmB', 'ImmB': 'ImmA', 'ImmV': 'ImmA', 'SingA': 'SingB', 'SingB': 'SingA', 'DataA': 'DataB', 'DataB': 'DataA', 'ImmK': 'SingK', 'SingK': 'ImmK', 'DataE': 'DataF', 'DataF': 'DataE'}[r['cls']]; return r
     if m == 'drop-item' and r.get('items'):
         del r['items'][pick % len(r['items'])]; return r
     if m == 'swap-items' and k in ('tuple', 'list') and len(r['items']) >= 2:
@@ -468,9 +480,15 @@ def check_ev(case, rec):
     a3 = pickle.loads(pickle.dumps(a))
     if a3 is not a or types.nutils_hash(a3) != ha:
         raise Violation('interning', 'pickle round trip of an evaluable gives a different object or hash', where='interning:evaluable-pickle')
-    s = a.simplified
-    if types.nutils_hash(a) != ha:
-        raise Violation('unstable-hash', 'hash changed after simplification was cached', where='evaluable')
+    ops = {n['op'] for n in case['p1']['nodes']}
+    if 'diagonalize' in ops and ops & {'inflate', 'take'}:
+        # excluded by construction: simplification of such programs may not terminate (open finding C01-inflate-diagonalize-nontermination);
+        # termination is not this property's subject, so the cached-simplification step is skipped and counted
+        rec.label('simplify-skipped:upstream-C01')
+    else:
+        s = a.simplified
+        if types.nutils_hash(a) != ha:
+            raise Violation('unstable-hash', 'hash changed after simplification was cached', where='evaluable')
     rec.nontrivial = len(case['p1']['nodes']) >= 3
     rec.label('evaluable')
 
@@ -544,7 +562,7 @@ def check_process(case, rec):
 
 @st.composite
 def interning_cases(draw, tier):
-    pool = draw(st.lists(st.tuples(st.sampled_from(['SingA', 'SingB', 'DataA', 'DataB', 'arraydata']), st.integers(0, 3), st.sampled_from(['pos', 'kw', 'mixed'])), min_size=2, max_size=4))
+    pool = draw(st.lists(st.tuples(st.sampled_from(['SingA', 'SingB', 'DataA', 'DataB', 'arraydata', 'SingK', 'DataE', 'DataF', 'evtuple']), st.integers(0, 3), st.sampled_from(['pos', 'kw', 'mixed'])), min_size=2, max_size=4))
     n = draw(st.integers(3, 12 if tier == 'quick' else 40))
     ops = [dict(op=draw(st.sampled_from(['create', 'create', 'drop', 'gc', 'unpickle', 'recreate', 'hash'])), i=draw(st.integers(0, 9)), slot=draw(st.integers(0, 5))) for _ in range(n)]
     return dict(pool=[list(p) for p in pool], ops=ops)
@@ -557,7 +575,16 @@ def check_interning(case, rec):
         cls, v, style = spec
         if cls == 'arraydata':
             return types.arraydata(numpy.arange(v + 1, dtype='int32' if style == 'kw' else 'int64'))
+        if cls == 'evtuple':     # the library's own container dataclass; v == 0 is the empty (falsy) tuple
+            from nutils import evaluable
+            items = tuple(evaluable.constant(k) for k in range(v))
+            return evaluable.Tuple(items) if style == 'pos' else evaluable.Tuple(items=items)
         C = c17classes.CLASSES[cls]
+        if cls in ('DataE', 'DataF'):
+            items = tuple(range(v))
+            return C(items) if style == 'pos' else C(items=items)
+        if cls == 'SingK':
+            return C(v, p=1, q='z') if style == 'pos' else C(v, q='z', p=1) if style == 'kw' else C(a=v, q='z', p=1)
         args = [v, (v, 'y'), 'z']
         if style == 'pos': return C(*args)
         if style == 'kw': return C(a=args[0], b=args[1], c=args[2])
